@@ -700,6 +700,9 @@ func (r *vC01Run) do(op vC01Op) {
 			r.stats["offers_of_undecodable_requests"]++
 		}
 		r.out.Linef("op offer id=%d sz=%d die=%d errs=%s", id, op.sz, op.die, vC01Errs(op.errs))
+		if r.pq.stopped {
+			r.stats["offer_after_shutdown"]++
+		}
 		var err error
 		var sizeOf int64 = 1
 		if !r.reqSized {
@@ -804,7 +807,47 @@ func (r *vC01Run) do(op vC01Op) {
 				err, shape = vC01OtherErr(r.trnd, 0, false)
 			}
 		}
-		r.out.Linef("tr errtree %s", shape)
+		// every third completion arrives the way the batcher delivers it for a request exported in several flushes: the REAL
+		// refCountDone (default_batcher.go) collects one error per flush and reports their combination to the queue's Done
+		// when the last flush has returned.  oc=shut iff SOME part is shutdown-classified (any position, the others nil /
+		// plain / permanent): the combination must keep that classification whatever the order of the parts.
+		var partErrs []error
+		if r.trnd.IntN(3) == 0 {
+			nparts := 2 + r.trnd.IntN(2)
+			partErrs = make([]error, nparts)
+			shapes := make([]string, nparts)
+			special := r.trnd.IntN(nparts) // the part that carries the outcome-defining error
+			for p := 0; p < nparts; p++ {
+				shapes[p] = "nil"
+				switch {
+				case p == special:
+					partErrs[p], shapes[p] = err, shape
+				case op.oc == "shut":
+					switch r.trnd.IntN(4) {
+					case 0:
+						partErrs[p], shapes[p] = vC01OtherErr(r.trnd, 1, true)
+					case 1:
+						partErrs[p], shapes[p] = vC01OtherErr(r.trnd, 1, false)
+					case 2:
+						partErrs[p], shapes[p] = vC01ShutErr(r.trnd, 1)
+					}
+				default:
+					if r.trnd.IntN(2) == 0 {
+						partErrs[p], shapes[p] = vC01OtherErr(r.trnd, 1, r.trnd.IntN(3) == 0)
+					}
+				}
+			}
+			var agg error
+			for _, e := range partErrs {
+				agg = multierr.Append(agg, e)
+			}
+			err = agg
+			r.out.Linef("tr errparts %s", strings.Join(shapes, " "))
+			r.stats["done_through_refcountdone"]++
+			r.stats[fmt.Sprintf("done_through_refcountdone_special_part_%d_of_%d_%s", special+1, nparts, op.oc)]++
+		} else {
+			r.out.Linef("tr errtree %s", shape)
+		}
 		r.stats["done_errtree_depth_"+strconv.Itoa(strings.Count(shape, "("))]++
 		if op.oc != "shut" {
 			if id, ok := r.outIDs[o.idx]; ok {
@@ -814,7 +857,21 @@ func (r *vC01Run) do(op vC01Op) {
 		if experr.IsShutdownErr(err) != (op.oc == "shut") {
 			r.out.Linef("viol sig=C01/classify/shutdown-error-in-tree-misclassified shape=%s want=%d", shape, vB(op.oc == "shut"))
 		}
-		if r.guarded(op, func() { o.done.OnDone(err) }) {
+		if r.guarded(op, func() {
+			if partErrs == nil {
+				o.done.OnDone(err)
+				return
+			}
+			rcd := newRefCountDone(o.done, int64(len(partErrs)))
+			callsBefore, sizeBefore := r.cl.calls, r.pq.queueSize
+			for k, e := range partErrs {
+				rcd.OnDone(e)
+				// the queue's Done is called once, when the LAST flush has returned: before that nothing may reach the queue
+				if k < len(partErrs)-1 && (r.cl.calls != callsBefore || r.pq.queueSize != sizeBefore) {
+					r.out.Linef("viol sig=C01/refcount/queue-done-called-before-the-last-flush-returned flush=%d of=%d", k+1, len(partErrs))
+				}
+			}
+		}) {
 			r.deaths++
 			r.kill()
 			r.obs("died")
@@ -979,6 +1036,12 @@ func (r *vC01Run) randomOp0(rnd *rand.Rand, pDie int) vC01Op {
 	} else {
 		cs = append(cs, cand{1, vC01Op{kind: "read"}})
 		cs = append(cs, cand{4, vC01Op{kind: "exit"}})
+		// Offer after Shutdown: the queue has no `stopped` check in putInternal; a producer that is still running while the
+		// exporter shuts down gets nil and the request is stored for the next start (blocking offers are not generated here:
+		// nothing would ever wake them)
+		if !r.block {
+			cs = append(cs, cand{2, vC01Op{kind: "offer", sz: rnd.IntN(6), die: die(2)}})
+		}
 	}
 	if len(r.outst) > 0 {
 		ocs := []string{"final", "final", "perm", "shut"}
